@@ -2,6 +2,7 @@
 from hypothesis import strategies as st
 
 from vlib import reguniv
+from vlib.callform import Form
 from vlib.reguniv import IDX
 from vlib.reguniv import NAMES
 from vlib.reguniv import Universe
@@ -78,7 +79,11 @@ def case_strategy(draw):
         probes.append([key, warm,
                        draw(st.integers(0, 40)) if draw(st.integers(0, 9)) < 8
                        else None])
-    return {'bp': bp, 'regs': regs, 'subs': subs, 'probes': probes}
+    # how the entry points are called: 9 = all arguments positional,
+    # k < 9 = the first k positional and the rest by keyword
+    forms = [draw(st.sampled_from([9, 9, 9, 0, 1, 2])) for _ in probes]
+    return {'bp': bp, 'regs': regs, 'subs': subs, 'probes': probes,
+            'forms': forms}
 
 
 def strategy(cfg):
@@ -178,8 +183,10 @@ def run_case(case, cfg, out):
 
     D = object()
 
+    cur_form = [9]
+
     def call_entry(entry, r, objs, prov, name, bad):
-        reg = U.regs[r]
+        reg = Form(U.regs[r], cur_form[0])
         specs = [providedBy(o) for o in objs]
         nm = name if bad is None else BAD_NAMES[bad]
         try:
@@ -248,10 +255,14 @@ def run_case(case, cfg, out):
 
     for pi, (key, warm, derive) in enumerate(case['probes']):
         r, objs, prov, name = resolve_key(key, derive)
-        reg = U.regs[r]
+        forms = case.get('forms') or [9]
+        cur_form[0] = forms[pi % len(forms)]
+        reg = Form(U.regs[r], cur_form[0])
+        out.tag('form_positional' if cur_form[0] >= 9 else 'form_keyword')
         specs = [providedBy(o) for o in objs]
-        stage = 'probe %d (registry %d %s, %d objects, %s, %r)' % (
-            pi, r, U.flavours[r], len(objs), prov.__name__, name)
+        stage = 'probe %d (registry %d %s, %d objects, %s, %r, call form ' \
+            '%d)' % (pi, r, U.flavours[r], len(objs), prov.__name__, name,
+                     cur_form[0])
         if pi % 2 == 0:
             if not bad_names(reg, specs, objs, prov, stage + ' cold'):
                 return
